@@ -44,6 +44,55 @@ type runner struct {
 	curW    int
 	step    int
 	crashAt map[int]bool
+	hb      *tv.Batch // hook-level trace for the model binding (nil: not recorded)
+}
+
+// hookBatch, when non-nil, receives the hook-level trace of every runPlan run while hookBudget lasts.
+var (
+	hookBatch  *tv.Batch
+	hookPlans  []plan
+	hookBudget int
+)
+
+// fsState is the complete projection of the real directory onto DirImpl's variables: every version directory with its
+// file names, and where <target> and <target>.new lead (0: absent, -1: somewhere no Write created).
+func (r *runner) fsState() tv.M {
+	link := func(p string) int {
+		dest, err := os.Readlink(p)
+		if err != nil {
+			if _, lerr := os.Lstat(p); lerr == nil {
+				return -1
+			}
+			return 0
+		}
+		if !filepath.IsAbs(dest) {
+			dest = filepath.Join(filepath.Dir(p), dest)
+		}
+		if w, ok := r.verDirs[dest]; ok {
+			return w
+		}
+		return -1
+	}
+	dirs := []tv.M{}
+	ents, _ := os.ReadDir(r.root)
+	for _, e := range ents {
+		if !e.IsDir() {
+			continue
+		}
+		full := filepath.Join(r.root, e.Name())
+		w, ok := r.verDirs[full]
+		if !ok {
+			w = -1
+		}
+		names := []string{}
+		fs, _ := os.ReadDir(full)
+		for _, f := range fs {
+			names = append(names, f.Name())
+		}
+		sort.Strings(names)
+		dirs = append(dirs, tv.M{"w": w, "files": names})
+	}
+	return tv.M{"dirs": dirs, "target": link(r.target), "new": link(r.target + ".new")}
 }
 
 func content(w int, name string) string { return fmt.Sprintf("w%d:%s", w, name) }
@@ -103,6 +152,11 @@ func (r *runner) hook(point, arg string) {
 		r.verDirs[arg] = r.curW
 	}
 	r.b.Ev("obs", r.observe())
+	if r.hb != nil {
+		m := r.fsState()
+		m["point"], m["arg"] = point, arg
+		r.hb.Ev("step", m)
+	}
 	idx := r.step
 	r.step++
 	if r.crashAt[idx] {
@@ -142,6 +196,16 @@ func runPlan(b *tv.Batch, p plan) (int, int) {
 	dir.VerifHook = r.hook
 	defer func() { dir.VerifHook = nil }()
 	tr := b.Start(tv.M{"plan": p})
+	if hookBatch != nil && hookBudget > 0 {
+		hookBudget--
+		r.hb = hookBatch
+		sets := make([][]string, len(p.Sets))
+		for i, s := range p.Sets {
+			sets[i] = append([]string{}, s...)
+		}
+		r.hb.Start(tv.M{"sets": sets})
+		hookPlans = append(hookPlans, p)
+	}
 	log := logger.NewLogger("verif-c18")
 	log.SetOutputLevel(logger.FatalLevel)
 	d := dir.New(dir.Options{Log: log, Target: r.target})
@@ -152,14 +216,23 @@ func runPlan(b *tv.Batch, p plan) (int, int) {
 			set = []string{}
 		}
 		b.Ev("begin", tv.M{"w": w, "files": set})
+		if r.hb != nil {
+			r.hb.Ev("begin", tv.M{"w": w, "files": set})
+		}
 		crashed, err := r.write(d, w, set)
 		if crashed {
 			b.Ev("crash", nil)
+			if r.hb != nil {
+				r.hb.Ev("crash", nil)
+			}
 			d = dir.New(dir.Options{Log: log, Target: r.target}) // recovery: fresh Dir, prev forgotten
 			continue
 		}
 		b.Ev("obs", r.observe())
 		b.Ev("ret", tv.M{"w": w, "err": err != nil, "versions": r.versions(), "errtext": fmt.Sprint(err)})
+		if r.hb != nil {
+			r.hb.Ev("ret", tv.M{"w": w, "err": err != nil})
+		}
 		if err != nil {
 			break
 		}
@@ -420,6 +493,8 @@ func TestCheck(t *testing.T) {
 	}
 	rec(nil)
 	b := &tv.Batch{}
+	hookBatch, hookPlans, hookBudget = &tv.Batch{}, nil, ev.Pick(100000, 60000)
+	defer func() { hookBatch = nil }()
 	var plans []plan
 	runs := 0
 	do := func(p plan) int {
@@ -510,7 +585,57 @@ func TestCheck(t *testing.T) {
 		p := plans[r.Trace]
 		e.Violation(findingKey(p, r, b), r.Why, tv.M{"plan": p, "trace": b.TraceStrings(r.Trace), "at": r.At})
 	}
+	bindModel(e)
 	selfTest(e)
+}
+
+// bindModel: the hook-level traces (every step point with the complete projection of the real directory) must be
+// behaviours of DirImpl.tla. An unexplained trace is drift between model and code, never a violation.
+func bindModel(e *ev.Evidence) {
+	hb := hookBatch
+	if hb == nil || hb.Len() == 0 {
+		return
+	}
+	missing, res := tv.ValidateDoneChunked(tlc.Opts{Dir: "DirWrite", Module: "TraceDirImpl", Config: "TraceDirImpl.cfg", Workers: 16, Timeout: ev.Pick(5*time.Minute, 30*time.Minute), HeapMB: 8192}, hb)
+	fmt.Printf("TLC model-binding validation (hook-level traces vs DirImpl.tla): ok=%v traces=%d events=%d not-explained=%d distinct=%d wall=%s %s\n", res.OK, hb.Len(), hb.Lines(), len(missing), res.Distinct, res.Wall.Round(time.Millisecond), res.What)
+	if !res.OK {
+		e.Inconclusive("model-binding validation did not run: " + res.What + res.Tail(1500))
+		return
+	}
+	e.Set("impl_traces_validated", int64(hb.Len()))
+	e.Set("impl_drift_traces", int64(len(missing)))
+	if len(missing) > 0 {
+		i := missing[0]
+		e.Set("drift", tv.M{"plan": hookPlans[i], "trace": hb.TraceStrings(i)})
+		fmt.Printf("DRIFT property=C18 %d hook-level traces are not behaviours of DirImpl.tla (model and code diverge; not a violation by itself), first: plan %+v\n", len(missing), hookPlans[i])
+	}
+	// binding self-test: a hook-level trace whose recorded directory is altered must not be explained
+	if len(missing) == 0 {
+		var pick = -1
+		for i, p := range hookPlans {
+			if len(p.Sets) >= 2 && len(p.Crashes) == 0 && len(p.Sets[1]) > 0 {
+				pick = i
+				break
+			}
+		}
+		if pick >= 0 {
+			lines := hb.Trace(pick)
+			bad := &tv.Batch{}
+			bad.AppendTrace(lines)
+			mut := append([][]byte{}, lines...)
+			for i := len(mut) - 1; i >= 0; i-- {
+				if strings.Contains(string(mut[i]), `"point":"removeprev"`) {
+					mut[i] = []byte(strings.Replace(string(mut[i]), `"new":0`, `"new":1`, 1)) // pretend the temporary link was left behind
+					break
+				}
+			}
+			bad.AppendTrace(mut)
+			bm, bres := tv.ValidateDone(tlc.Opts{Dir: "DirWrite", Module: "TraceDirImpl", Config: "TraceDirImpl.cfg", Workers: 2, Timeout: 3 * time.Minute}, bad)
+			if !bres.OK || len(bm) != 1 || bm[0] != 1 {
+				e.Inconclusive(fmt.Sprintf("model-binding self-test failed: want exactly the altered trace unexplained, got %v (%s)", bm, bres.What))
+			}
+		}
+	}
 }
 
 // findingKey: the monitor's reason plus whether a crash preceded the failure.
